@@ -55,7 +55,7 @@ Definition branch_clean (r : repo) (b : N) : Prop :=
 
 (* a revision database name that denotes a commit *)
 Definition names_commit (r : repo) (v : rev) : Prop :=
-  match v with
+  match (norm_base r (fst v), snd v) with
   | (BBranch b, []) => branch_clean r b
   | (BHash _, _ :: _) => False          (* `db/<hash>~1` is rejected by the implementation *)
   | (BHead, _) => False
